@@ -428,7 +428,7 @@ func binHash(c *BinCase) string {
 }
 
 func TestC06Binary(t *testing.T) {
-	st := vlib.StatsFor("C06", "binary", "the real cmd/omniwitness program (built from the tree, log configuration from a generated file) on a SQLite file, polling stub sumdb/tiles logs every 100ms, in half of the cases under strace with every fsync delayed by 10-40ms and every page write by 1.5ms (a stretched commit), checkpoints of up to 200 KiB (extension lines); 3-8 growth steps, each optionally with SIGKILL 0-80ms after the program's feeder fetched the newly published checkpoint (i.e. in the middle of that update) or right after the new checkpoint was acknowledged through the HTTP API, then a restart on the same file: every log must serve a complete, fully signed checkpoint that is the one held before or the one being written, nothing acknowledged may be lost, and the program must come back and catch up; non-trivial = at least one kill; distinct by case hash")
+	st := vlib.StatsFor("C06", "binary", "the real cmd/omniwitness program (built from the tree, log configuration from a generated file) on a SQLite file, polling stub sumdb/tiles logs every 100ms, in half of the cases under strace with every fsync delayed by 10-40ms and every page write by 1.5ms (a stretched commit), checkpoints of up to 200 KiB (extension lines); 3-8 growth steps, each optionally with SIGKILL 0-300ms after the program's feeder fetched the newly published checkpoint (i.e. in the middle of that update) or right after the new checkpoint was acknowledged through the HTTP API, then a restart on the same file: every log must serve a complete, fully signed checkpoint that is the one held before or the one being written, nothing acknowledged may be lost, and the program must come back and catch up; non-trivial = at least one kill; distinct by case hash")
 	rapid.Check(t, func(rt *rapid.T) {
 		c := &BinCase{NTiles: rapid.IntRange(1, 2).Draw(rt, "ntiles")}
 		if rapid.Bool().Draw(rt, "slowsync") {
@@ -450,7 +450,7 @@ func TestC06Binary(t *testing.T) {
 			case 1:
 				s.Kill = -2
 			default:
-				s.Kill = rapid.SampledFrom([]int{0, 1, 2, 3, 5, 8, 12, 20, 30, 50, 100, 200, 300, 500, 800}).Draw(rt, "killdelay") + rapid.IntRange(0, 3).Draw(rt, "killjit")
+				s.Kill = rapid.SampledFrom([]int{0, 1, 2, 3, 5, 8, 12, 20, 30, 50, 100, 200, 300, 500, 800, 1000, 1500, 2000, 2200, 2400, 2600, 3000}).Draw(rt, "killdelay") + rapid.IntRange(0, 3).Draw(rt, "killjit")
 			}
 			c.Steps = append(c.Steps, s)
 		}
@@ -467,9 +467,9 @@ func TestC06Binary(t *testing.T) {
 // under a stretched commit with kills spread over the whole write, and kills right after
 // the first sight of a new checkpoint.
 func TestC06BinaryFixed(t *testing.T) {
-	st := vlib.StatsFor("C06", "binary-fixed", "fixed schedules for the real program: (a) 100 KiB checkpoints, commit stretched (fsync +25ms, page writes +1.5ms), SIGKILL 10/20/30/40/60/80ms into six successive updates; (b) six updates each killed the moment the new checkpoint is first visible through the HTTP API, commit stretched by 60ms per fsync; same oracle as part binary; non-trivial = any")
+	st := vlib.StatsFor("C06", "binary-fixed", "fixed schedules for the real program: (a) 100 KiB checkpoints, commit stretched (fsync +25ms, page writes +1.5ms), SIGKILL 10..360ms into fifteen successive updates, every 20ms over the stretch in which the stretched commit writes the journal, syncs it, writes the database pages (about 200-260ms in on an idle machine) and syncs them; (b) six updates each killed the moment the new checkpoint is first visible through the HTTP API, commit stretched by 60ms per fsync; same oracle as part binary; non-trivial = any")
 	big := &BinCase{NTiles: 1, SlowSyncMs: 25, Steps: []BinStep{{Log: 1, Grow: 5, Kill: -1, ExtKB: 100}}}
-	for _, k := range []int{100, 200, 300, 400, 600, 800} {
+	for _, k := range []int{100, 500, 1000, 1400, 1600, 1800, 2000, 2200, 2400, 2600, 2800, 3000, 3200, 3400, 3600} {
 		big.Steps = append(big.Steps, BinStep{Log: 1, Grow: 3, Kill: k, ExtKB: 100})
 	}
 	seen := &BinCase{NTiles: 1, SlowSyncMs: 60, Steps: []BinStep{{Log: 1, Grow: 5, Kill: -1}, {Log: 0, Grow: 4, Kill: -1}}}
